@@ -86,10 +86,10 @@ def events_from(fake, intents):
     return evs
 
 
-def session(run, rng, seed, nm_list, quick, region='eu-test-1', host='s3.example.test:9000', secret=None, clock=None, page=2):
+def session(run, rng, seed, nm_list, quick, region='eu-test-1', host='s3.example.test:9000', secret=None, clock=None, page=2, scheme='http', big=False):
     from replicat.backends import s3c
     fake = fakes3.FakeS3(page_size=page, secret=secret or 'wJalrXUtnFEMI/K7MDENG+bPxRfiCYEXAMPLEKEY')
-    be = fakes3.client(fake, region=region, host=host)
+    be = fakes3.client(fake, region=region, host=host, scheme=scheme)
     intents = {}
     tokens = []
     old_dt = s3c.datetime
@@ -139,6 +139,13 @@ def session(run, rng, seed, nm_list, quick, region='eu-test-1', host='s3.example
             async def lst(prefix=prefix):
                 return [x async for x in be.list_files(prefix)]
             await op('list', '/%s' % fake.bucket, lst(), kind='list', prefix=prefix)
+        if big:
+            # payloads at realistic sizes: a default-size chunk, exactly one 16 MiB read piece, and more than that (streamed with the default
+            # stream chunk size); the declared hash must be the hash of what was sent whatever the size
+            for j, n in enumerate((5_120_000, 16 * 1024 * 1024, 16 * 1024 * 1024 + 4099)):
+                nm = 'big/object-%d' % j
+                await op('upload_stream', '/%s/%s' % (fake.bucket, nm), be.upload_stream(nm, io.BytesIO(rng.randbytes(n)), n))
+            fake.objects.clear()
         for nm in nm_list[:3]:
             await op('delete', '/%s/%s' % (fake.bucket, nm), be.delete(nm))
         await be.close()
@@ -165,9 +172,9 @@ def main(run):
     variants = [dict(), dict(region='us-east-1', host='minio.local'), dict(secret='s/+=' * 10, host='127.0.0.1:9877'),
                 dict(clock=datetime.datetime(2031, 12, 31, 23, 59, 59)), dict(clock=datetime.datetime(2032, 1, 1, 0, 0, 0), page=3),
                 # host spellings that the HTTP client normalises on the wire: upper case, an explicit default port
-                dict(host='S3.Example.Test:9000'), dict(host='minio.local:80')]
-    for i, g in enumerate(groups):
-        traces.append(session(run, rng, i, g, quick, **variants[i % len(variants)]))
+                dict(host='S3.Example.Test:9000'), dict(host='minio.local:80'), dict(scheme='https', host='s3.eu-test-1.example.test', big=True)]
+    for i in range(max(len(groups), len(variants))):          # every name group and every variant at least once
+        traces.append(session(run, rng, i, groups[i % len(groups)], quick, **variants[i % len(variants)]))
 
     def on_reject(t, idx, clause):
         e = t['events'][idx - 1]
